@@ -39,7 +39,7 @@ theorem inv_supply (hE : EnvOK env) (tok : String) (amount : Rat) (coll : Bool) 
   have hwd := inv_walletDebit (cx := cx) (env := env) tok amount
   have hrec := fun a => inv_record (cx := cx) (env := env) a
   have hupd := inv_setUpdated (cx := cx) (env := env)
-  unfold supply guardOpen
+  unfold supply guardOpen checkCanCollateral checkFlag
   repeat (first
     | exact hrec _
     | exact Inv.modify _ (fun s hs => good_commitSupply hs (hE tok _ (by assumption)) _)
@@ -59,7 +59,7 @@ theorem inv_borrow (hE : EnvOK env) (tok : String) (amount? : Option Rat) :
   have h11 := hR.toReadInv3.maxBorrowAmount tok
   have hrec := fun a => inv_record (cx := cx) (env := env) a
   have hupd := inv_setUpdated (cx := cx) (env := env)
-  unfold borrow guardOpen
+  unfold borrow guardOpen borrowAmountOf
   repeat (first
     | exact hrec _
     | exact Inv.modify _ (fun s hs => good_commitBorrow hs (hE tok _ (by assumption)) _ _)
@@ -82,7 +82,7 @@ theorem inv_repay (tok : String) (amount? : Option Rat) (withColl : Bool) (collT
     intro t c a
     unfold repayCollateralCap
     repeat (first | exact h6 _ | inv_step)
-  unfold repay guardOpen lookupBorrow
+  unfold repay guardOpen lookupBorrow repayAmountOf takeRepayment
   repeat (first | exact h7 _ | exact hcap _ _ _ | exact h12 _ _ | exact h13 _ _ | exact hwd _ _ | exact hrec _ | inv_step)
 
 /-! ### change_collateral -/
